@@ -49,6 +49,21 @@ def build_dbs(tier):
                 E.define_all({}, cc.SHALLOW.get(w))
                 crash.run_workload(cc.make_workload(w), db2, id_salt=1)
                 yield f"{w} crashed before commit {k} + recovery run", db2
+    # 3. a SECOND execution (cached / shallow replays in progress) crashed before every one of its commit points
+    for w in ("chain-shallow", "caught-failure", "chain") if tier != "quick" else ("chain-shallow", "caught-failure"):
+        E.define_all({}, cc.SHALLOW.get(w))
+        base = seams.fresh_db_path("c33b")
+        crash.run_workload(cc.make_workload(w), base)
+        probe = crash.copy_db(base, "c33p")
+        E.define_all({}, cc.SHALLOW.get(w))
+        _, _, inj = crash.run_workload(cc.make_workload(w), probe, id_salt=1)
+        seams.remove_db(probe)
+        for k in range(1, inj.commits + 1):
+            db = crash.copy_db(base, "c33s")
+            E.define_all({}, cc.SHALLOW.get(w))
+            crash.run_workload(cc.make_workload(w), db, crash_at=k, id_salt=1)
+            yield f"{w} run once, second execution crashed before its commit {k}", db
+        seams.remove_db(base)
 
 
 def check_db(desc, db):
@@ -114,7 +129,7 @@ def run(ctx):
         "evaluations": n * len(STATUSES) * 2, "distinct_nontrivial": len(shapes), "databases": n,
         "rows_by_displayed_status": {f"{a}:{b}": v for (a, b), v in sorted(total.items())}, "exhaustive": True,
         "rule": "databases produced by real runs: 6 drivers (done, failed, caught failure, CSE-collapsed failing twin, CSE-collapsed done twin, nested "
-        "failure) run once and twice, and a workload crashed before EVERY commit point (jobs left running), some followed by a recovery run; for every "
+        "failure) run once and twice, and a workload crashed before EVERY commit point (jobs left running), some followed by a recovery run, and a second (replaying, incl. check_valid=shallow) execution crashed before every one of its commit points; for every "
         "database and every status: filter_job_statuses([s]) == {jobs displaying s}, filter_execution_statuses([s]) == {executions displaying s}; "
         "distinct = distinct patterns of which statuses occur in a database",
         "samples": samples,
